@@ -385,6 +385,13 @@ def _vec_index(ctx, a, ty, c):
         if ctx.branch([inb, z3.Not(inb)]) == 0:
             return Ref(Cell(Obj("op", "Rc<dyn Opcode>", tag=z3.Select(v.tags, i), at=i), "op"), ())
         raise PathEnd("panic", "index out of bounds")
+    if v.kind == "vec" and getattr(ctx, "vec_index_panics", False):
+        # opt-in (C01): a vector of unknown length indexed at i panics exactly when i >= len
+        n = vec_len(v)
+        inb = z3.ULT(i, n)
+        if ctx.branch([inb, z3.Not(inb)]) == 0:
+            return Ref(Cell(ctx.fresh(v.elem_ty, "%s[i]" % v.name), "elem"), ())
+        raise PathEnd("panic", "index out of bounds: Vec of symbolic length indexed by Index::index")
     raise Unsupported("index on %r" % (v,))
 
 
